@@ -312,6 +312,21 @@ def run(ctx):
         ctx.check(not in_handler, "R02.5", seq.short, "callbacks-not-in-handler", message="callback loop sits in an except/finally block", how="plain statement of the loop body")
     cb_loops = [n for n in gs.stmt_nodes() if n.kind == "iter" and norm(n.expr[0]) == "callbacks"]
     ctx.check(len(cb_loops) == 1, "R02.5", seq.short, "each-callback-once", message=f"callbacks iterated {len(cb_loops)} times per trial", how="single loop over callbacks")
+    # ... and they DO run for every trial that _run_trial returned normally: the only way past the callback loop is
+    # `callbacks is None`
+    def atom_nocb(e):
+        a = cmp_atom(e)
+        if a and a[0] == "callbacks" and a[2] == "None":
+            return True if a[1] in (ast.Is, ast.Eq) else (False if a[1] in (ast.IsNot, ast.NotEq) else None)
+        return None
+    none_edges = [(t, k, m) for t in gs.stmt_nodes() if t.kind == "test" for k, m in t.succ if edges_where(t.expr, atom_nocb).get(k) is True]
+    starts = [m for rn in runs for k, m in rn.succ if k == "n"]
+    r_skip = gs.reachable(starts, avoid_nodes=cb_loops, avoid_edges=none_edges, edge_ok=lambda a, k, b: k not in ("e", "reraise"))
+    ctx.check(bool(cb_loops) and hd not in r_skip and gs.exit not in r_skip, "R02.5", seq.short, "callbacks-run-for-every-finished-trial",
+              message="after _run_trial returned normally the loop can go on (or end) without running the callbacks although callbacks were given: they are skipped under "
+                      "some other condition (e.g. a stop request), so a stored trial is never reported to them",
+              how="from the normal continuation of _run_trial, the loop head / exit is unreachable without passing the callback loop or the `callbacks is None` edge",
+              witness=gs.witness([hd, gs.exit], guards=cb_loops, edges=none_edges, src=starts[0]) if starts and (hd in r_skip or gs.exit in r_skip) else None)
     for c in cbs:
         for cc in c.calls():
             if isinstance(cc.func, ast.Name) and cc.func.id == "callback":
@@ -366,6 +381,33 @@ def run(ctx):
         r = go.reachable(b0, avoid_nodes=heads2, avoid_edges=acc)
         ok = not any(s in r for s in subn)
     ctx.check(ok, "R02.5", opt.short, "submission-bound", message="the n_jobs branch can submit more than n_trials trials", how="submit dominated (per iteration) by n_submitted_trials < n_trials")
+    # an exception that a worker's trial did not catch reaches the caller of optimize(): every submitted future's
+    # result() is taken - inside the submission loop for those that finish early, and after it for the rest
+    from sa.util import parent_map as _pm2, ancestors as _anc2
+    pm_o = _pm2(opt.node)
+    withs = [a for a in _anc2(subs[0], pm_o) if isinstance(a, ast.With)]
+    count_loops = [a for a in _anc2(subs[0], pm_o) if isinstance(a, ast.For) and "itertools.count" in norm(a.iter)]
+    ctx.require(withs and count_loops, "R02.5: executor block / submission loop not found")
+    w, cl = withs[0], count_loops[0]
+    fut_names = {norm(c.func.value) for c in own_nodes(opt.node) if isinstance(c, ast.Call) and isinstance(c.func, ast.Attribute) and c.func.attr == "add"
+                 and any(x is subs[0] for x in ast.walk(c))}
+    odefs = single_defs(opt.node)
+
+    def drains(loop):
+        if not isinstance(loop.target, ast.Name):
+            return False
+        it = norm(loop.iter)
+        src_ok = it in fut_names or any(fn_ in norm(resolve(loop.iter, odefs)) for fn_ in fut_names) or \
+            any(isinstance(n, (ast.Assign,)) and any(loop.iter is not None and isinstance(t, (ast.Tuple, ast.Name)) and it in norm(t) for t in n.targets)
+                and isinstance(n.value, ast.Call) and dotted(n.value.func) in ("wait", "concurrent.futures.wait", "as_completed") for n in own_nodes(opt.node))
+        calls_result = any(isinstance(c, ast.Call) and isinstance(c.func, ast.Attribute) and c.func.attr == "result" and norm(c.func.value) == loop.target.id for c in ast.walk(loop))
+        return src_ok and calls_result
+    tail = w.body[w.body.index(cl) + 1:] if cl in w.body else []
+    after = [n for st in tail for n in ast.walk(st) if isinstance(n, ast.For) and drains(n)]
+    ctx.check(bool(after), "R02.5", opt.short, "remaining-futures-drained",
+              message="the n_jobs branch takes result() only of futures that finish while more trials are being submitted: the last (up to n_jobs) futures are never asked, "
+                      "so an exception that their trial did not catch is swallowed - optimize(lambda t: 1/0, n_trials=2, n_jobs=2) returns normally",
+              how="after the submission loop, inside the executor block, a loop over the remaining futures calls result()")
     # sequential call forwards n_trials and callbacks unchanged
     sc = [c for c in own_nodes(opt.node) if isinstance(c, ast.Call) and dotted(c.func) == "_optimize_sequential"]
     ok = len(sc) == 1 and [norm(x) for x in sc[0].args][:6] == ["study", "func", "n_trials", "timeout", "catch", "callbacks"]
